@@ -346,8 +346,9 @@ long World::on_read(KFd &k, void *buf, size_t n) {
 	for (auto &in : ins) {
 		// in exact mode a batch is fed member by member (it must behave like its members sent one by one)
 		JV j;
+		if (in.t == Input::WSFRAME) in.wscls = classify_ws(cl, in.wf);
 		const std::string &txt = in.t == Input::MSG ? in.text : in.wf.payload;
-		bool is_text = in.t == Input::MSG || (in.t == Input::WSFRAME && in.wf.fin && in.wf.opcode == 1 && in.wf.masked && in.wf.rsv == 0);
+		bool is_text = in.t == Input::MSG || (in.t == Input::WSFRAME && in.wscls == W_TEXT);
 		if (mode == "exact" && is_text && !txt.empty() && txt[0] == '[' && json_parse(txt, j) && j.t == JV::Arr) {
 			if (j.a.size() >= 3) probe("batch_len>=3");
 			probe("batch_expanded");
